@@ -688,6 +688,10 @@ pub fn date(d: &[u8], _: &Ctx) -> &'static str {
 }
 
 pub fn quote(d: &[u8], _: &Ctx) -> &'static str {
+    // harness self-test (GUIDE: break the oracle once): C06_SELFTEST=1 injects a panic for inputs ending in `\8`
+    if d.ends_with(b"\\8") && std::env::var_os("C06_SELFTEST").is_some() {
+        panic!("injected self-test failure");
+    }
     black_box(gix_quote::single(d.as_bstr()));
     match gix_quote::ansi_c::undo(d.as_bstr()) {
         Ok((v, consumed)) => {
